@@ -105,7 +105,7 @@ ASSUME = ["non-separable blend modes that panic in the dependency panic on both 
 
 
 def run(ctx):
-    return _scene.run_property(ctx, CFG, 1200, 15000, RULE, concrete, ASSUME, post=post)
+    return _scene.run_property(ctx, CFG, 2000, 15000, RULE, concrete, ASSUME, post=post)
 
 
 def replay(ctx, path):
